@@ -1,0 +1,28 @@
+//go:build verif
+
+package engine
+
+import "github.com/openGemini/openGemini/engine/immutable"
+
+// Facade additions for property C03 (compaction / merge crash atomicity). Compiled only with
+// the `verif` build tag.
+
+// HoldFiles takes a reference on every data file of a measurement, the way an open cursor
+// does, and returns the function that drops the references again. While the references are
+// held a compaction or merge cannot remove the files it replaces: it renames them to
+// `<name>.init` instead and leaves their removal to the table-store GC.
+func (v *VerifShard) HoldFiles(mst string) (release func()) {
+	var held []immutable.TSSPFile
+	for _, order := range []bool{true, false} {
+		fs, ok := v.sh.immTables.GetTSSPFiles(mst, order)
+		if !ok || fs == nil {
+			continue
+		}
+		held = append(held, fs.Files()...)
+	}
+	return func() {
+		immutable.UnrefFilesReader(held...)
+		immutable.UnrefFiles(held...)
+		held = nil
+	}
+}
